@@ -7,6 +7,7 @@ import (
 	"encoding/json"
 	"fmt"
 	"io"
+	"math"
 	"reflect"
 
 	"go.opencensus.io/stats"
@@ -165,7 +166,11 @@ func (s *handler) handleReader(ctx context.Context, r io.Reader, w io.Writer, rp
 	// EOF we can't actually know if the client sent more than the maximum or
 	// not, so we read one byte more over the limit to explicitly query that.
 	// FIXME: Maybe there's a cleaner way to do this.
-	reqSize, err := bufferedRequest.ReadFrom(io.LimitReader(r, s.maxRequestSize+1))
+	limit := s.maxRequestSize
+	if limit < math.MaxInt64 { // "no limit" must not overflow into "read nothing"
+		limit++
+	}
+	reqSize, err := bufferedRequest.ReadFrom(io.LimitReader(r, limit))
 	if err != nil {
 		// ReadFrom will discard EOF so any error here is unexpected and should
 		// be reported.
